@@ -531,6 +531,7 @@ pub mod outbound {
 	/// Router whose answers are scripted by the caller (one entry per `find_route` call).
 	struct ScriptedRouter {
 		dest: PublicKey,
+		amt_msat: u64,
 		plan: Mutex<VecDeque<Option<Vec<u64>>>>,
 		calls: Mutex<Vec<(PaymentId, bool)>>,
 	}
@@ -547,23 +548,9 @@ pub mod outbound {
 			_payment_hash: PaymentHash, payment_id: PaymentId,
 		) -> Result<Route, &'static str> {
 			let next = self.plan.lock().unwrap().pop_front().unwrap_or(None);
-			self.calls.lock().unwrap().push((payment_id, next.is_some()));
-			match next {
-				Some(scids) if !scids.is_empty() => {
-					let n = scids.len() as u64;
-					let total = route_params.final_value_msat;
-					let paths = scids
-						.iter()
-						.enumerate()
-						.map(|(i, scid)| {
-							let amt = total / n + if i == 0 { total % n } else { 0 };
-							path(self.dest, *scid, amt)
-						})
-						.collect();
-					Ok(Route { paths, route_params: route_params.clone() })
-				},
-				_ => Err("scripted: no route"),
-			}
+			let res = self.route_for(next, route_params);
+			self.calls.lock().unwrap().push((payment_id, res.is_ok()));
+			res
 		}
 		fn create_blinded_payment_paths<T: secp256k1::Signing + secp256k1::Verification>(
 			&self, _recipient: PublicKey, _local_node_receive_key: ReceiveAuthKey,
@@ -571,6 +558,28 @@ pub mod outbound {
 			_secp_ctx: &Secp256k1<T>,
 		) -> Result<Vec<BlindedPaymentPath>, ()> {
 			Err(())
+		}
+	}
+	impl ScriptedRouter {
+		fn route_for(
+			&self, next: Option<Vec<u64>>, route_params: &RouteParameters,
+		) -> Result<Route, &'static str> {
+			match next {
+				Some(scids) if !scids.is_empty() => {
+					// one part of `amt_msat` per missing part (every part of the facade has the
+					// same amount, so that `claim`/`fail` can rebuild a part's path from its scid);
+					// surplus scids of the plan entry stay unused
+					let total = route_params.final_value_msat;
+					let n = core::cmp::max(1, total / self.amt_msat) as usize;
+					if scids.len() < n || total % self.amt_msat != 0 {
+						return Err("scripted: plan entry too short");
+					}
+					let paths =
+						scids.iter().take(n).map(|scid| path(self.dest, *scid, self.amt_msat)).collect();
+					Ok(Route { paths, route_params: route_params.clone() })
+				},
+				_ => Err("scripted: no route"),
+			}
 		}
 	}
 
@@ -793,7 +802,8 @@ pub mod outbound {
 		}
 
 		/// `check_retry_payments` with a scripted router (`plan[k]` answers the k-th `find_route`
-		/// call: `Some(scids)` = a route with these parts, `None` = no route). Returns the pushed
+		/// call: `Some(scids)` = a route over the first k of these scids, k = number of missing parts;
+		/// `None` = no route). Returns the pushed
 		/// events, the router calls in order (id, route found) and the HTLCs handed to
 		/// `send_payment_along_path` (id, session priv, scid).
 		pub fn check_retry(
@@ -801,6 +811,7 @@ pub mod outbound {
 		) -> (Vec<String>, Vec<(PaymentId, bool)>, Vec<(PaymentId, [u8; 32], u64)>) {
 			let router = ScriptedRouter {
 				dest: self.dest,
+				amt_msat: self.amt_msat,
 				plan: Mutex::new(plan.into_iter().collect()),
 				calls: Mutex::new(Vec::new()),
 			};
